@@ -22,6 +22,13 @@ pub mod vproof {
         pub fn jwk_public_key_thumbprint(&self) -> (r: Result<Value, crate::acme_common::error::Error>)
             ensures r matches Ok(v) ==> json_text(v) == thumbprint_json(*self) { unimplemented!() }
     }
+    // the full public JWK (with alg / use members): another text than the thumbprint input
+    pub uninterp spec fn public_jwk_json(k: KeyPair) -> Seq<char>;
+    impl KeyPair {
+        #[verifier::external_body]
+        pub fn jwk_public_key(&self) -> (r: Result<Value, crate::acme_common::error::Error>)
+            ensures r matches Ok(v) ==> json_text(v) == public_jwk_json(*self) { unimplemented!() }
+    }
     pub uninterp spec fn json_text(v: Value) -> Seq<char>;
     impl Value {
         #[verifier::external_body]
